@@ -36,6 +36,10 @@ REG_OPS = [("set", "AB", 0), ("set", "AB", 1), ("set", "BA", 2), ("del", "AB"), 
 REG_ENTRIES = [(3, 2, 1), (1, 4, 2), (4, 5, 3)]
 
 
+RET_DANG = [0.0, 1e-7, 1e-5, 2e-4, 9e-4, 3e-3]
+RET_DT = [0.0, 1e-6, 5e-4, 2e-3]
+
+
 def rq(axis, angle):
     n = math.sqrt(sum(a * a for a in axis))
     s = math.sin(angle / 2) / n
@@ -81,6 +85,9 @@ def units(tier, seed):
     for i in range(0, len(sub), 5):
         u.append(dict(kind="pairs", first=[list(e) for e in sub[i:i + 5]], tier=tier))
     u.append(dict(kind="chains"))
+    # A->B composed with the B->A transform of a pose that differs by 0 .. 1e-3 (rad, m): the relative motion between two frames
+    for i in range(0, len(sub), 20):
+        u.append(dict(kind="returns", first=[list(e) for e in sub[i:i + 20]]))
     u.append(dict(kind="registry"))
     # explicit-state search over registry histories: set / delete / query on ONE registry instance
     for first in range(len(REG_OPS)):
@@ -103,6 +110,11 @@ def run_unit(unit, acc):
         for a in unit["first"]:
             for b in sub:
                 check_case(dict(kind="pair", a=list(a), b=list(b)), acc)
+    elif unit["kind"] == "returns":
+        for a in unit["first"]:
+            for da in RET_DANG:
+                for dt in RET_DT:
+                    check_case(dict(kind="return", a=list(a), dang=da, dt=dt), acc)
     elif unit["kind"] == "chains":
         sub = M[::11]
         for a, b, c in itertools.product(sub[:6], sub[3:9], sub[5:11]):
@@ -280,6 +292,42 @@ def check_case(case, acc):
         acc.outcome(("pair",))
         if acc.cases % 2003 == 1:
             acc.sample(case)
+    elif k == "return":
+        AB, MA = build(tuple(case["a"]), "quat", FrameID.BASE_LINK, FrameID.MAP)
+        # the pose a moment later: turned by dang about z and moved by dt along x and -y; BA' = its inverse
+        Md = m4(rq((0, 0, 1), case["dang"]), (case["dt"], -case["dt"], 0.0))
+        MA2 = MA @ Md
+        Minv = np.linalg.inv(MA2)
+        BA = HomogeneousMatrix(tuple(Minv[:3, 3]), Minv[:3, :3].copy(), FrameID.MAP, FrameID.BASE_LINK)
+        want = Minv @ MA
+        acc.exec(3)
+        AA = BA.dot(AB)
+        AA2 = AB.transform(BA)
+        acc.compared()
+        for nm, H in (("dot", AA), ("transform(matrix)", AA2)):
+            if H.src != FrameID.BASE_LINK or H.dst != FrameID.BASE_LINK:
+                bad("return:labels", "%s of base_link->map with map->base_link is labelled %s->%s" % (nm, H.src, H.dst))
+            if not close(H.matrix, want, 1e-9) or not close(H.position, want[:3, 3], 1e-9) or not same_rot(H.rotation, want[:3, :3], 1e-9):
+                bad("return:value", "%s: composition of A->B with the B->A transform of a pose %g rad / %g m away differs from the 4x4 product by %.3g" % (
+                    nm, case["dang"], case["dt"], float(np.max(np.abs(np.asarray(H.matrix) - want)))))
+        p, ax, ang = POSES[1]
+        q = Quaternion(rq(ax, ang))
+        p1, r1 = AB.transform(p, q)
+        p2, r2 = BA.transform(p1, r1)
+        p3, r3 = AA.transform(p, q)
+        if not close(p2, p3, 1e-8) or not same_rot(r3, r2.rotation_matrix, 1e-9):
+            bad("return:two-step", "transforming with the composition differs from transforming in two steps: %s vs %s" % (p3, p2))
+        # two small same-frame transforms composed
+        S1 = HomogeneousMatrix((case["dt"], 0.0, 0.0), rmat(rq((0, 0, 1), case["dang"])), FrameID.MAP, FrameID.MAP)
+        S2 = HomogeneousMatrix((0.0, case["dt"] / 2, 0.0), rmat(rq((0, 0, 1), case["dang"] / 3)), FrameID.MAP, FrameID.MAP)
+        acc.exec()
+        SS = S2.dot(S1)
+        wantS = m4(rq((0, 0, 1), case["dang"] / 3), (0.0, case["dt"] / 2, 0.0)) @ m4(rq((0, 0, 1), case["dang"]), (case["dt"], 0.0, 0.0))
+        if not close(SS.matrix, wantS, 1e-9):
+            bad("return:small-same-frame", "two map->map transforms of %g rad / %g m compose to a matrix %.3g away from the 4x4 product" % (
+                case["dang"], case["dt"], float(np.max(np.abs(np.asarray(SS.matrix) - wantS)))))
+        acc.state(("return", case["a"][0], case["a"][1], case["a"][2], case["dang"], case["dt"]), nontrivial=case["dang"] > 0 or case["dt"] > 0)
+        acc.outcome(("return",))
     elif k == "chain":
         f = [FR[i] for i in case["frames"]]
         H1, M1 = build(tuple(case["a"]), "quat", f[0], f[1])
